@@ -45,6 +45,14 @@ chk(
     "DESIGN.md 4 C14",
 )
 
+chk(
+    "C08",
+    "model-based testing of call histories: bounded-exhaustive operation sequences, seeded Hypothesis operation lists and a Hypothesis rule-based state machine against a reference model of the library",
+    "Exploration: every history of depth <= 3 (quick) / <= 4 (thorough) over 48 add/remove/replace operations on a reduced universe of colliding blocks, plus random histories of up to 30 operations over a 14-block universe (entries/strings with keys a, b, A and the empty key, zero-field entries, preamble, both comment kinds, failed and duplicate-field blocks; arguments also drawn from currently held blocks incl. duplicate wrappers and from structurally equal copies; list arguments; both fail modes) are run side by side with a model written from the docstrings; after every call every view (blocks, entries, entries_dict, strings, strings_dict, preambles, comments, failed_blocks) is compared with the model and a raising call must leave the library as it was.",
+    "Trusted: the slot-list model in pbt/props/C08.py. Known finding F-12 (add with fail_on_duplicate_key adds, then raises) is excluded by a predicate on that exact call shape and reported as KNOWN-FINDING. Order of Library.strings not asserted.",
+    "DESIGN.md 4 C08",
+)
+
 ALL = ["C%02d" % i for i in range(1, 21)]
 NOT_YET = "check not built yet in this revision of /verif (see DESIGN.md section 4 for its design); not claimed"
 
